@@ -104,6 +104,32 @@ CHECKS = {
             "earlier than that time; the control run without lazy stepping must run ahead (non-triviality).",
             "'Outstanding' = demanded according to replies observed so far.",
             "DESIGN.md 4/C10"),
+    "C04": ("exploration",
+            "metamorphic / differential: one generated scenario with input-sensitive scripted simulators run under "
+            "10 variants (schedules, start order, lazy, cache, debug, transport) + enumerated schedules",
+            "The per-simulator sequences of (time, inputs) must be identical in all variants; behaviours hash their "
+            "inputs so any divergence propagates. Micro-topologies: every schedule within 2 (thorough 3) deviations "
+            "from FIFO is compared with the FIFO run.",
+            "Deterministic scripted simulators; differences whose earliest divergent step carries the monitor's "
+            "signature of open findings F10/F12 (or F04/F05 outcomes) are attributed to those findings.",
+            "DESIGN.md 4/C04"),
+    "C13": ("fault_enumeration",
+            "enumeration of every (simulator, step index) x malformed reply value on base scenarios + Hypothesis "
+            "(scenario, schedule, fault) triples; outcome oracle",
+            "One malformed reply (non-int / not-later next step, output time in the past, no next step from a "
+            "time-based simulator) per run at every step index, both transports: run() must raise an error naming "
+            "the simulator, the offender is not stepped again, nobody steps into its past, the loop is closed.",
+            "One fault per run; bool next steps / float output times recorded only.",
+            "DESIGN.md 4/C13"),
+    "C14": ("fault_enumeration",
+            "enumeration of every request index (setup_done, step, get_data) x fault kind x transport x schedule x "
+            "shutdown mode on base scenarios + Hypothesis triples, under the controlled loop (exact hang verdicts)",
+            "A simulator raises or its connection closes at every request index: run() must end (idle loop = hang), "
+            "within the stop time-outs (virtual clock), every other simulator finalized exactly once, loop closed, "
+            "no open transport, no pending task.",
+            "Process death is modelled on the in-memory transport (real-process tier not built); open finding F15 "
+            "(runner tasks of the other simulators keep running during shutdown) excluded by signature.",
+            "DESIGN.md 4/C14"),
 }
 
 NOT_YET = {}
